@@ -347,6 +347,23 @@ def run_case(case, ctx):
     seq, meta = make_sequence(case)
     N, limexp = len(seq), case['limexp']
     given = meta.get('raw') or seq          # the terms in the type they are handed over in
+    if case['seed'] % 7 == 3 and not meta.get('raw') and all(isinstance(v, float) for v in seq):
+        # the running value kept in one 0-d array that the caller updates in place between the calls
+        ctx.count('terms_handed_over_in_one_array_updated_in_place')
+
+        class _InPlace(object):
+            def __init__(self, vals):
+                self.vals = vals
+
+            def __getitem__(self, sl):
+                return _InPlace(self.vals[sl])
+
+            def __iter__(self):
+                acc = np.array(0.0)
+                for v in self.vals:
+                    acc[...] = v
+                    yield acc
+        given = _InPlace(list(seq))
     prng = np.random.default_rng(case['seed'] + 7)
     _hist['branches'] = set()
     # ------------------------------------------------------------------ EpsAlg
@@ -355,7 +372,7 @@ def run_case(case, ctx):
     ea_guard = []   # did the library's own vanishing-difference substitution (1e60) appear in its table so far
     try:
         for s in given[:MAX_EXACT_TERMS]:
-            ea_out.append(ea(s))
+            ea_out.append(float(ea(s)))
             d_ = len(ea.epstab) - 1
             ea_guard.append({d_ - j for j, v in enumerate(ea.epstab) if v == 1.0e+60})   # the substitute itself (values that size occur in the 'extreme' family)
     except Exception as exc:
